@@ -175,12 +175,16 @@ struct ChopStream {
     /// position inside the buffer tungstenite is flushing, and what was left of it after the last write
     pos: usize,
     last_remaining: usize,
+    /// `+8`: stalls longer than any plausible internal timer, each once, in the middle of a frame
+    long_stalls: Vec<u64>,
 }
+
+static THOROUGH: std::sync::atomic::AtomicBool = std::sync::atomic::AtomicBool::new(false);
 
 impl ChopStream {
     fn new(inner: TcpStream, mode: u8, seed: u64) -> ChopStream {
         let _ = inner.set_nodelay(true);
-        ChopStream { inner, mode, rng: Rng::new(seed), sleep: None, budget: 0, pos: 0, last_remaining: 0 }
+        ChopStream { inner, mode, rng: Rng::new(seed), sleep: None, budget: 0, pos: 0, last_remaining: 0, long_stalls: if THOROUGH.load(std::sync::atomic::Ordering::Relaxed) { vec![11_000, 5_500, 2_500] } else { vec![1_100, 600, 300] } }
     }
 }
 
@@ -194,7 +198,7 @@ impl tokio::io::AsyncWrite for ChopStream {
     fn poll_write(mut self: std::pin::Pin<&mut Self>, cx: &mut std::task::Context<'_>, buf: &[u8]) -> std::task::Poll<std::io::Result<usize>> {
         use std::task::Poll;
         let this = &mut *self;
-        if this.mode & 3 == 0 || buf.is_empty() {
+        if this.mode & 11 == 0 || buf.is_empty() {
             return std::pin::Pin::new(&mut this.inner).poll_write(cx, buf);
         }
         if let Some(s) = this.sleep.as_mut() {
@@ -207,9 +211,11 @@ impl tokio::io::AsyncWrite for ChopStream {
             this.pos = 0; // a new buffer is being flushed
         }
         if this.budget == 0 {
-            this.budget = match this.mode & 3 {
+            this.budget = match if this.mode & 3 == 0 { 2 } else { this.mode & 3 } {
                 // with stalls: byte by byte through the first and the last 64 bytes, the middle in bulk
                 1 if this.mode & 4 != 0 && this.pos >= 16 && buf.len() > 8 => ((buf.len() - 8) / (1 + this.rng.below(3) as usize)).max(1) + this.rng.below(5) as usize,
+                // byte by byte — except through the middle of a large buffer (quick tier: time)
+                1 if buf.len() > 4096 && this.pos >= 64 => buf.len() - 64,
                 1 => 1,
                 2 => (buf.len() / (2 + this.rng.below(2) as usize)).max(1) + this.rng.below(3) as usize,
                 _ => 1460,
@@ -221,7 +227,11 @@ impl tokio::io::AsyncWrite for ChopStream {
                 this.budget -= w.min(this.budget);
                 this.pos += w;
                 this.last_remaining = buf.len() - w;
-                if this.mode & 4 != 0 && this.rng.chance(1, 4) {
+                if this.mode & 8 != 0 && !this.long_stalls.is_empty() && this.last_remaining > 0 && this.rng.chance(1, 12) {
+                    // the rest of this frame arrives after a long pause
+                    let ms = this.long_stalls.pop().unwrap();
+                    this.sleep = Some(Box::pin(tokio::time::sleep(Duration::from_millis(ms))));
+                } else if this.mode & 4 != 0 && this.rng.chance(1, 4) {
                     let ms = if this.rng.chance(1, 60) { 120 } else { this.rng.range(1, 3) };
                     this.sleep = Some(Box::pin(tokio::time::sleep(Duration::from_millis(ms))));
                 }
@@ -331,6 +341,9 @@ struct World {
     client: WebSocketClient,
     seen: Arc<Mutex<Vec<Vec<u8>>>>,
     next_id: u64,
+    /// further registered peers that never read (the `bcastm` world)
+    #[allow(dead_code)]
+    idle_peers: Vec<RawConn>,
     observer_bad: Arc<Mutex<Vec<String>>>,
 }
 
@@ -429,7 +442,7 @@ async fn make_world(cfg: &str, upstream: SocketAddr) -> Result<World, String> {
     let peer_addr = cl.local_addr().unwrap();
     {
         let seen = seen.clone();
-        let peer_chop: u8 = match cfg { "1024" => 5, "200" => 1, "4096" => 2, "1048576" => 3, "64" => 5, "u" => 6, _ => 0 };
+        let peer_chop: u8 = match cfg { "1024" => 5, "200" => 1, "4096" => 2, "1048576" => 3, "64" => 5, "u" => 6, "1024,-,-" => 11, _ => 0 };
         tokio::spawn(async move {
             loop {
                 let Ok((stream, _)) = cl.accept().await else { break };
@@ -477,7 +490,7 @@ async fn make_world(cfg: &str, upstream: SocketAddr) -> Result<World, String> {
         return Err("SharedWebSocketServer::limits() is not the configured value".into());
     }
     // requests reach the server / proxy whole, in 2–3 pieces, or byte-wise with stalls — by configuration
-    let chop: u8 = match cfg { "1024" => 2, "65536" => 5, "200" => 1, "-" => 3, "4096" => 6, _ => 0 };
+    let chop: u8 = match cfg { "1024" => 2, "65536" => 5, "200" => 1, "-" => 3, "4096" => 6, "4096,100000,200000" => 10, _ => 0 };
     // observers: read-only methods hammered from two tasks while the cases run; every observation must be
     // the configured value / the registered state
     {
@@ -507,7 +520,16 @@ async fn make_world(cfg: &str, upstream: SocketAddr) -> Result<World, String> {
             });
         }
     }
-    let mut w = World { limit, srv: RawConn::connect(srv_addr, chop).await?, srv2: RawConn::connect(srv_addr, 0).await?, proxy: RawConn::connect(proxy_addr, chop).await?, registry, reports, client, seen, next_id: 1 << 40, observer_bad };
+    let mut w = World { limit, srv: RawConn::connect(srv_addr, chop).await?, srv2: RawConn::connect(srv_addr, 0).await?, proxy: RawConn::connect(proxy_addr, chop).await?, registry, reports, client, seen, next_id: 1 << 40, idle_peers: Vec::new(), observer_bad };
+    if cfg == "65536" {
+        for _ in 0..MANY_PEERS {
+            let mut c = RawConn::connect(srv_addr, 0).await?;
+            let id = w.fresh();
+            c.send(&RawFrame::request(id, false, 1, b"/ping", 2, b"null")).await?;
+            c.recv_until(id).await?;
+            w.idle_peers.push(c);
+        }
+    }
     // one round trip on each connection: the server's connect hooks (registry insert) have run
     let id = w.fresh();
     w.srv.send(&RawFrame::request(id, false, 1, b"/ping", 2, b"null")).await?;
@@ -543,7 +565,9 @@ struct Spec {
     blen: usize,
 }
 
-const FRAME_PATHS: &[&str] = &["inline", "off", "joff", "push", "pushoff", "pushn", "pushrun", "bcast", "bcastj", "bcastu", "proxy"];
+const FRAME_PATHS: &[&str] = &["inline", "off", "joff", "push", "pushoff", "pushn", "pushrun", "bcast", "bcastj", "bcastu", "bcastm", "proxy"];
+/// idle peers registered next to the two observed ones in the `bcastm` world (a broadcast with many peers)
+const MANY_PEERS: usize = 12;
 
 /// Length of the run on the `pushrun` / `batchrun` kinds (from the id: on the op line, so a replay is exact).
 fn run_len(id: u64) -> usize {
@@ -595,7 +619,78 @@ fn cfg_effective(cfg: &str) -> Option<Option<usize>> {
     }
 }
 
-const CLIENT_KINDS: &[&str] = &["call", "notify", "cjson", "cjsont", "ctyped", "cbeve", "rwrite", "njson", "nbeve", "batch", "batchrun"];
+const CLIENT_KINDS: &[&str] = &["call", "notify", "cjson", "cjsont", "ctyped", "cbeve", "rwrite", "njson", "nbeve", "batch", "batchrun",
+    "cfmtt", "ctypedt", "cbevet", "cmsg", "cmsgt", "rread", "rreadt", "rreadty", "rreadtyt", "rcall", "ntyped", "batcht"];
+/// the twins added by the entry-point audit (audit 3): generated in three worlds only
+const TWIN_KINDS: &[&str] = &["cfmtt", "ctypedt", "cbevet", "cmsg", "cmsgt", "rread", "rreadt", "rreadty", "rreadtyt", "rcall", "ntyped", "batcht"];
+/// kinds that send no body: the frame is 48 + |path|
+const BODYLESS: &[&str] = &["cmsg", "cmsgt", "rread", "rreadt", "rreadty", "rreadtyt"];
+
+/// Which public entry point of the anchored files each kind / path / world-builder drives.
+const DRIVEN: &[&str] = &[
+    // websocket_limits.rs
+    "unlimited", "with_max_incoming_frame_size", "with_max_incoming_message_size", "with_assumed_peer_frame_limit",
+    // websocket_client.rs
+    "connect", "connect_with_limits", "limits", "call_json", "call_json_with_timeout", "call_typed_json", "call_typed_json_with_timeout",
+    "call_typed_beve", "call_typed_beve_with_timeout", "call_message", "call_message_with_timeout", "call_with_formats",
+    "call_with_formats_and_timeout", "registry_read", "registry_read_typed", "registry_read_with_timeout", "registry_read_typed_with_timeout",
+    "registry_write_json", "registry_call_json", "notify_json", "notify_typed_json", "notify_typed_beve", "notify_with_formats", "batch_json",
+    "batch_json_with_timeout",
+    // websocket_server.rs
+    "new", "with_limits", "with_outbound_capacity", "with_peer_registry", "on_error", "serve_listener", "serve_listener_with_shutdown",
+    "serve_listener_with_graceful_drain", "into_shared", "accept", "serve_connection", "proxy_connection", "proxy_connection_with_limits",
+];
+/// Public items of those files that cannot put an outbound REPE message on a WebSocket, or are another property's.
+const NOT_DRIVEN_BECAUSE: &[(&str, &str)] = &[
+    ("subscribe_notifies", "inbound side (C04)"), ("unsubscribe_notifies", "inbound side (C04)"),
+    ("derive_accept_key", "handshake helper"), ("error_code", "getter on ConnectionError"), ("from_http_request", "HandshakeContext"),
+    ("path", "HandshakeContext"), ("query", "HandshakeContext"), ("header", "HandshakeContext"), ("headers", "HandshakeContext"),
+    ("cancel", "ShutdownToken (C15)"), ("is_cancelled", "ShutdownToken (C15)"), ("cancelled", "ShutdownToken (C15)"),
+    ("listen", "binds a listener"), ("with_offreader_limit", "C16"), ("on_peer_connect", "C15"), ("on_peer_connect_with_handshake", "C15"),
+    ("on_peer_disconnect", "C15"), ("serve", "binds, then serve_listener_with_shutdown"), ("serve_with_shutdown", "binds, then the listener twin"),
+    ("serve_with_graceful_drain", "binds, then the listener twin"), ("accept_with_limits", "handshake only (inbound limits)"),
+    ("accept_with_handshake", "handshake only; driven by C16"), ("accept_with_handshake_and_limits", "handshake only"),
+    ("adopt_upgraded", "wraps an already upgraded stream"), ("adopt_upgraded_partially_read", "wraps an already upgraded stream"),
+    ("serve_connection_with_handshake", "serve_connection + hooks (C15)"), ("serve_connection_with_cancel", "driven by C16"),
+    ("serve_connection_with_cancel_and_handshake", "serve_connection + hooks (C15)"), ("is_websocket_upgrade", "peeks at a TCP stream"),
+];
+
+/// `pub fn` / `pub async fn` names in the non-test part of an anchored source file of the tree under test.
+fn source_entry_points(file: &str) -> Vec<String> {
+    let repo = std::env::var("VERIF_REPO").unwrap_or_else(|_| "/repo".into());
+    let text = std::fs::read_to_string(std::path::Path::new(&repo).join("src").join(file)).unwrap_or_default();
+    let text = text.split("#[cfg(test)]").next().unwrap_or("").to_string();
+    let mut names = Vec::new();
+    for line in text.lines() {
+        let t = line.trim_start();
+        for pre in ["pub async fn ", "pub fn "] {
+            if let Some(rest) = t.strip_prefix(pre) {
+                let name: String = rest.chars().take_while(|c| c.is_alphanumeric() || *c == '_').collect();
+                if !name.is_empty() && !names.contains(&name) {
+                    names.push(name);
+                }
+            }
+        }
+    }
+    names
+}
+
+/// Every public entry point of the anchored files is driven or listed with a reason; anything else (a new twin)
+/// goes into the evidence (`not_driven`) and onto stderr.
+fn entry_point_audit(out: &mut Out) {
+    let mut missing = Vec::new();
+    for file in ["websocket_limits.rs", "websocket_client.rs", "websocket_server.rs"] {
+        for name in source_entry_points(file) {
+            if !DRIVEN.contains(&name.as_str()) && !NOT_DRIVEN_BECAUSE.iter().any(|(n, _)| *n == name) {
+                out.count(&format!("limits.NOT_DRIVEN.{}::{}", file, name));
+                eprintln!("fam_limits: public entry point {}::{} is neither driven nor listed as not driven", file, name);
+                missing.push(format!("{}::{}", file, name));
+            }
+        }
+    }
+    out.extra.insert("not_driven".into(), json!(missing));
+    out.extra.insert("driven_entry_points".into(), json!(DRIVEN.len()));
+}
 
 /// Number of characters whose BEVE string encoding is `blen` bytes long, if there is one.
 fn beve_chars(blen: usize) -> usize {
@@ -627,8 +722,8 @@ async fn run_frame(w: &mut World, s: &Spec) -> CaseResult {
     let path = s.kind.as_str();
     let seed = fnv(s.idx.as_bytes());
     let intended = 48 + s.qlen + s.blen;
-    let is_notify = matches!(path, "push" | "pushoff" | "pushn" | "pushrun" | "bcast" | "bcastj" | "bcastu");
-    let copies = if path == "pushrun" { run_len(s.id) } else if path.starts_with("bcast") { 2 } else { 1 };
+    let is_notify = matches!(path, "push" | "pushoff" | "pushn" | "pushrun" | "bcast" | "bcastj" | "bcastu" | "bcastm");
+    let copies = if path == "pushrun" { run_len(s.id) } else if path == "bcastm" { 2 + MANY_PEERS } else if path.starts_with("bcast") { 2 } else { 1 };
     let is_bcast = path.starts_with("bcast");
     // 1 in 4 of the handler-made responses is an error response of the handler's own
     let own_ec: u32 = if matches!(path, "inline" | "off" | "proxy") && seed % 4 == 0 { if seed % 8 == 0 { 4096 } else { 5 } } else { 0 };
@@ -692,14 +787,14 @@ async fn run_frame(w: &mut World, s: &Spec) -> CaseResult {
                     return Err(format!("push request {} answered id {} ec {} body {}", rid, r.h.id, r.h.ec, String::from_utf8_lossy(&r.body[..r.body.len().min(60)])));
                 }
             }
-            "bcast" | "bcastj" | "bcastu" => {
+            "bcast" | "bcastj" | "bcastu" | "bcastm" => {
                 let method = String::from_utf8(exp_query.clone()).unwrap();
                 let res = match path {
                     "bcastj" => w.registry.broadcast_notify_json(&method, &"x".repeat(s.blen - 2)).map_err(|e| format!("broadcast_notify_json: {e}"))?,
                     "bcastu" => w.registry.broadcast_notify_utf8(&method, "u".repeat(s.blen)),
                     _ => w.registry.broadcast_notify_raw(&method, BodyFormat::RawBinary, &exp_body),
                 };
-                if res.len() != 2 || !res.values().all(|r| r.is_ok()) {
+                if res.len() != (if path == "bcastm" { 2 + MANY_PEERS } else { 2 }) || !res.values().all(|r| r.is_ok()) {
                     return Err(format!("broadcast reached {} peers, results {:?}", res.len(), res.values().collect::<Vec<_>>()));
                 }
             }
@@ -874,10 +969,11 @@ async fn run_client(w: &mut World, s: &Spec) -> CaseResult {
     let path = String::from_utf8(qpattern(s.qlen, seed)).unwrap();
     let is_notify = kind.starts_with('n');
     // what the API puts in the body, computed here (not taken from the crate): raw bytes, a JSON string, a BEVE string
-    let text = "x".repeat(match kind { "cbeve" | "nbeve" => beve_chars(s.blen), "call" | "notify" => 0, _ => s.blen.saturating_sub(2) });
+    let text = "x".repeat(match kind { "cbeve" | "nbeve" | "cbevet" => beve_chars(s.blen), "call" | "notify" | "cfmtt" => 0, k if BODYLESS.contains(&k) => 0, _ => s.blen.saturating_sub(2) });
     let (body, bfmt): (Vec<u8>, u16) = match kind {
-        "call" | "notify" => (pattern(s.blen, seed), 0),
-        "cbeve" | "nbeve" => (beve::to_vec(&text).unwrap(), 1),
+        "call" | "notify" | "cfmtt" => (pattern(s.blen, seed), 0),
+        k if BODYLESS.contains(&k) => (Vec::new(), 0),
+        "cbeve" | "nbeve" | "cbevet" => (beve::to_vec(&text).unwrap(), 1),
         _ => (serde_json::to_vec(&text).unwrap(), 2),
     };
     debug_assert_eq!(body.len(), s.blen);
@@ -897,6 +993,28 @@ async fn run_client(w: &mut World, s: &Spec) -> CaseResult {
             // three calls at once on the same client: a small one, the sized one, a small one
             let reqs = vec![("/c1".to_string(), json!(1)), (path.clone(), json!(text)), ("/c2".to_string(), json!(2))];
             match tokio::time::timeout(WATCHDOG, w.client.batch_json(reqs)).await {
+                Ok(mut v) if v.len() == 3 => {
+                    neighbours_ok = v[0].is_ok() && v[2].is_ok();
+                    Ok(v.remove(1).map(|_| ()))
+                }
+                Ok(_) => Ok(Err(RepeError::Io(std::io::Error::other("batch result count")))),
+                Err(_) => Err(()),
+            }
+        }
+        "cfmtt" => tokio::time::timeout(WATCHDOG, w.client.call_with_formats_and_timeout(&path, 1, Some(&body), 0, Duration::from_secs(35))).await.map(|r| r.map(|_| ())).map_err(|_| ()),
+        "ctypedt" => tokio::time::timeout(WATCHDOG, w.client.call_typed_json_with_timeout::<_, _, Value>(&path, &text, Duration::from_secs(35))).await.map(|r| r.map(|_| ())).map_err(|_| ()),
+        "cbevet" => tokio::time::timeout(WATCHDOG, w.client.call_typed_beve_with_timeout::<_, _, Value>(&path, &text, Duration::from_secs(35))).await.map(|r| r.map(|_| ())).map_err(|_| ()),
+        "cmsg" => tokio::time::timeout(WATCHDOG, w.client.call_message(&path)).await.map(|r| r.map(|_| ())).map_err(|_| ()),
+        "cmsgt" => tokio::time::timeout(WATCHDOG, w.client.call_message_with_timeout(&path, Duration::from_secs(35))).await.map(|r| r.map(|_| ())).map_err(|_| ()),
+        "rread" => tokio::time::timeout(WATCHDOG, w.client.registry_read(&path)).await.map(|r| r.map(|_| ())).map_err(|_| ()),
+        "rreadt" => tokio::time::timeout(WATCHDOG, w.client.registry_read_with_timeout(&path, Duration::from_secs(35))).await.map(|r| r.map(|_| ())).map_err(|_| ()),
+        "rreadty" => tokio::time::timeout(WATCHDOG, w.client.registry_read_typed::<_, Value>(&path)).await.map(|r| r.map(|_| ())).map_err(|_| ()),
+        "rreadtyt" => tokio::time::timeout(WATCHDOG, w.client.registry_read_typed_with_timeout::<_, Value>(&path, Duration::from_secs(35))).await.map(|r| r.map(|_| ())).map_err(|_| ()),
+        "rcall" => tokio::time::timeout(WATCHDOG, w.client.registry_call_json(&path, &text)).await.map(|r| r.map(|_| ())).map_err(|_| ()),
+        "ntyped" => tokio::time::timeout(WATCHDOG, w.client.notify_typed_json(&path, &text)).await.map_err(|_| ()),
+        "batcht" => {
+            let reqs = vec![("/c1".to_string(), json!(1)), (path.clone(), json!(text)), ("/c2".to_string(), json!(2))];
+            match tokio::time::timeout(WATCHDOG, w.client.batch_json_with_timeout(reqs, Duration::from_secs(35))).await {
                 Ok(mut v) if v.len() == 3 => {
                     neighbours_ok = v[0].is_ok() && v[2].is_ok();
                     Ok(v.remove(1).map(|_| ()))
@@ -941,7 +1059,7 @@ async fn run_client(w: &mut World, s: &Spec) -> CaseResult {
     let seen: Vec<Vec<u8>> = std::mem::take(&mut *w.seen.lock().unwrap());
     // messages of this op = everything seen except the follow-up ping
     let chaff = seen.iter().filter(|b| RawFrame::parse_prefix(b).map(|(f, _)| f.query == b"/c1" || f.query == b"/c2").unwrap_or(false)).count();
-    if kind == "batch" && (!neighbours_ok || chaff != 2) && !broken {
+    if (kind == "batch" || kind == "batcht") && (!neighbours_ok || chaff != 2) && !broken {
         fail(&mut fails, "neighbours", format!("{}: the two small calls batched with the sized one: both ok = {}, {} of 2 reached the peer", s.idx, neighbours_ok, chaff));
     }
     let mine: Vec<&Vec<u8>> = seen.iter().filter(|b| RawFrame::parse_prefix(b).map(|(f, _)| f.query != b"/ping" && f.query != b"/c1" && f.query != b"/c2").unwrap_or(true)).collect();
@@ -1015,6 +1133,14 @@ fn gen_specs(rng: &mut Rng, thorough: bool) -> Vec<Spec> {
         let extra_cfg = li >= 7;
         if cfg == "64" {
             kinds = CLIENT_KINDS.to_vec();
+        }
+        if !matches!(cfg.as_str(), "1024" | "4096" | "-") {
+            kinds.retain(|k| !TWIN_KINDS.contains(k));
+        }
+        if cfg == "65536" {
+            kinds.retain(|k| !matches!(*k, "bcast" | "bcastj" | "bcastu"));
+        } else {
+            kinds.retain(|k| *k != "bcastm");
         }
         if cfg_ocap(cfg).is_some() {
             kinds.retain(|k| !matches!(*k, "pushn" | "pushrun" | "bcast" | "bcastj" | "bcastu") && !CLIENT_KINDS.contains(k));
@@ -1101,13 +1227,21 @@ fn gen_specs(rng: &mut Rng, thorough: bool) -> Vec<Spec> {
                         _ => rng.range(1, 24.min((t - 48).max(1)) as u64) as usize,
                     },
                 };
-                let min_b = if matches!(k, "joff" | "bcastj" | "cjson" | "cjsont" | "ctyped" | "rwrite" | "njson" | "batch" | "batchrun" | "cbeve" | "nbeve") { 2 } else { 0 };
+                let min_b = if matches!(k, "joff" | "bcastj" | "cjson" | "cjsont" | "ctyped" | "rwrite" | "njson" | "batch" | "batchrun" | "cbeve" | "nbeve" | "ctypedt" | "cbevet" | "rcall" | "ntyped" | "batcht") { 2 } else { 0 };
                 if t < 48 + qlen + min_b {
                     continue;
                 }
                 let (mut qlen, mut blen) = (qlen, t - 48 - qlen);
+                if BODYLESS.contains(&k) {
+                    // no body: the whole frame is header + path
+                    qlen += blen;
+                    blen = 0;
+                    if qlen == 0 {
+                        continue;
+                    }
+                }
                 // a BEVE string body cannot have every length (the size prefix grows): move a byte to the path
-                while matches!(k, "cbeve" | "nbeve") && beve_len(beve_chars(blen)) != blen && blen > 2 {
+                while matches!(k, "cbeve" | "nbeve" | "cbevet") && beve_len(beve_chars(blen)) != blen && blen > 2 {
                     qlen += 1;
                     blen -= 1;
                 }
@@ -1145,7 +1279,7 @@ fn gen_specs(rng: &mut Rng, thorough: bool) -> Vec<Spec> {
         }
         // far over a small limit AND over the transport's write buffer (128 KiB)
         if matches!(cfg.as_str(), "1024" | "4096" | "65536" | "200") {
-            for k in ["inline", "bcast", "call", "notify", "push", "proxy"] {
+            for k in ["inline", if cfg == "65536" { "bcastm" } else { "bcast" }, "call", "notify", "push", "proxy"] {
                 id += 1;
                 specs.push(Spec { idx: String::new(), kind: k.to_string(), cfg: cfg.clone(), limit: *lim, id, qlen: 5, blen: 200_000 + rng.below(5000) as usize });
             }
@@ -1188,9 +1322,11 @@ fn parse_spec(line: &str) -> Option<Spec> {
 
 fn main() {
     let args = Args::parse();
+    THOROUGH.store(args.thorough(), std::sync::atomic::Ordering::Relaxed);
     let mut out = Out::new(&args.out);
     out.rule = "per limits expression {default().with_assumed_peer_frame_limit(Some(1 KiB | 4 KiB | 64 KiB | 1 MiB)), …(None), WebSocketLimits::unlimited(), no limits given at all (WebSocketServer::new / proxy_connection / WebSocketClient::connect: frames at 16 MiB and 16 MiB + 1); thorough adds 16 MiB, 300, 100000; the 4 KiB and unlimited worlds are served through into_shared + SharedWebSocketServer::accept + serve_connection} and per outbound path {inline response, off-reader response (custom erased handler), off-reader response (with_json_blocking), ctx.peer() notify from an inline and from an off-reader handler, three pushes in a row from one handler call with the sized one in the middle, PeerRegistry broadcast, proxy-forwarded response, client request, client notify}: frame sizes limit-2..limit+2 plus random sizes (small, below, just above, far above, near the limit), random split between query and body, handler-chosen (also very long) or echoed query, 1 in 4 handler answers an error response of its own, body buffers with and without spare capacity; each case is followed by one more request on the same connection. Distinct by op line; non-trivial = the guard fired (size > limit) or the size is within 2 of the limit".into();
     let rt = tokio::runtime::Builder::new_multi_thread().worker_threads(4).enable_all().build().unwrap();
+    entry_point_audit(&mut out);
     let mut rng = Rng::new(args.seed);
     let specs: Vec<Spec> = match args.replay_ops() {
         Some(ops) => ops.iter().filter_map(|l| parse_spec(l)).collect(),
@@ -1233,6 +1369,11 @@ fn main() {
             let seen_bad: Vec<String> = std::mem::take(&mut *worlds.get(&s.cfg).unwrap().observer_bad.lock().unwrap());
             for b in seen_bad.iter().take(1) {
                 out.oracle_fail("limits.observer", &format!("while the cases ran an observer saw: {}", b), &[r.op.clone()]);
+            }
+            if out.oracle_failures >= 12 {
+                // a broken tree has said enough: report quickly
+                out.count("limits.stopped_early_after_12_oracle_failures");
+                break;
             }
             if r.broken {
                 worlds.remove(&s.cfg);
